@@ -182,7 +182,7 @@ class Spec:
                 rt = st.ref[d][s][1][t]
                 nr, nc = rt.nr, rt.nc
                 big = nr > 50
-                vals = {"full": ["s", "i", "f", "b", "dt", "td", "0", "e"], "medium": ["s", "f", "dt", "0", "e"], "reduced": ["s", "0"], "mini": ["s"]}[self.alphabet]
+                vals = {"full": ["s", "i", "f", "b", "dt", "td", "0", "e"], "medium": ["s", "f", "dt", "0", "e"], "reduced": ["s", "0"], "mini": ["0", "i"]}[self.alphabet]  # mini: two values of the same type and stored size
                 if big:
                     pos = sorted({(0, 0), (255, 0), (256, 0), (nr - 1, nc - 1), (nr, 0)} & {(r, c) for r in range(nr + 1) for c in range(nc)})
                     vals = ["s"]
